@@ -312,6 +312,29 @@ def run(ctx):
                 good = all((sign == "neg" and lin == {"i": 1, "S": 1}) or (sign == "nonneg" and lin == {"i": 1}) for sign, lin, ln in res2) and {sg for sg, _, _ in res2} == {"neg", "nonneg"}
                 ctx.check(good, "R12.5", f, "subscript-normalises", "operator[] accesses %s: a negative index is not counted from the end (only get() does that)"
                           % ", ".join("at(%s) for a %s index" % (_show_lin(lin), {"neg": "negative", "nonneg": "non-negative", "any": "any"}[sign]) for sign, lin, ln in res2), f)
+    # ---- R12.10: one way in for raw strings. "Everything behind `--` is positional whatever it looks like" lives in the
+    # argv entry point (tokens behind `--` are built verbatim, without the syntax check); any further parse overload that
+    # turns strings into tokens itself skips that rule
+    ctx.rule("R12.10", "every parse() overload of parser other than the two known ones hands its raw strings to parse(argc, argv) (no second place where strings become tokens)")
+    from .common import PARSE_ARGV
+    entries = [f for f in prog.methods_of(NS + "parser") if f.name == "parse" and f.has_cfg and not f.flags.get("instantiation")]
+    ctx.need("R12.10", "parse overloads of parser", len(entries), 2)
+    argv_fn = prog.fn(PARSE_ARGV)
+    for f in entries:
+        if f.id in (PARSE_ARGV, PARSE_VEC):
+            ctx.ok("R12.10", f, "entry-point:" + _psig(f), "known entry point", f)
+            continue
+        calls = [n for _, _, e in f.roots() for n in elem_calls(e)]
+        to_argv = any(n.get("callee") == PARSE_ARGV for n in calls)
+        builds = [fmt(n)[:60] for _, _, e in f.all_elems() if e.get("expr") is not None for n in walk(e["expr"]) if n.get("k") == "construct" and "user_input" in (n.get("name") or n.get("type") or "")]
+        ctx.check(to_argv and not builds, "R12.10", f, "entry-point:" + _psig(f),
+                  "parse(%s) %s: tokens behind `--` go through the syntax check there, so `prog -- -` or `-- ---x` raises instead of yielding the positional%s"
+                  % (", ".join(p0.get("type") or "?" for p0 in f.params), "builds its tokens itself (%s)" % builds[0] if builds else "does not delegate to parse(argc, argv)",
+                     " - and for a `char**` / `const char*[]` argument this overload is the better match, so existing calls are rerouted" if f.is_pattern else ""), f)
+    # ---- R12.9: the accepted count is stored as wide as it is given
+    ctx.rule("R12.9", "parser's integral settings are stored at least as wide as the setter's parameter (an accepted count of 2^32 or more is not reduced modulo 2^32)")
+    from .common import rule_no_narrowing
+    rule_no_narrowing(ctx, "R12.9", NS + "parser", "a larger accepted count is reduced modulo 2^width, `accept_positionals(1ull << 32)` accepts nothing", minimum=1)
     # ---- R12.7: the accepted count and the greedy switch are independent settings
     ctx.rule("R12.7", "who-may-write: the accepted count is set only by accept_positionals(), the greedy switch only by greedy_postionals() (neither setting changes the other)")
     SETTERS = {NS + "parser::allowed_positionals_": "accept_positionals", NS + "parser::greedy_positionals_": "greedy_postionals"}
@@ -505,6 +528,10 @@ def _show_lin(lin):
     if lin.get("1", 0) or not parts:
         parts.append(str(lin.get("1", 0)))
     return " + ".join(parts)
+
+
+def _psig(f):
+    return "(" + ",".join((p0.get("type") or "?").replace(" ", "") for p0 in f.params) + ")"
 
 
 def _index_by_sign(g, p, ats):
